@@ -182,6 +182,10 @@ class C13(object):
         pool = names + [n + '_x' for n in names[:1]]
         shared = [Term(rng.choice(['', '-']) + n) for n in pool]
         shared.append(Term(pool[0] + '*' + pool[-1]))
+        # every form a simple (non-opaque) term may take: quotient of two names, number times name, name over number
+        shared.append(Term(rng.choice(['', '-']) + pool[-1] + '/' + pool[0]))
+        shared.append(Term('2*' + pool[min(1, len(pool) - 1)]))
+        shared.append(Term(pool[0] + '/4'))
         blob = '2*(%s - %s)' % (pool[0], pool[-1])
         e1 = Equation('lhs1', 'd', [Term(blob, is_blob=True)] + shared)
         e2 = Equation('lhs2', 'd', shared)
